@@ -509,7 +509,9 @@ func ruleRecipientsInOrder(c *Ctx) {
 			continue
 		}
 		n++
-		c.obUnreach("recipients=append", site, `invoke:Session.Rcpt != nil`)
+		for _, ea := range c.cbErrAtoms(lRcpt, "invoke:Session.Rcpt", site.Parent()) {
+			c.obUnreach("recipients=append", site, ea+` != nil`)
+		}
 		R.Ob(c.siteKey(site, "recipient recorded after the backend accepted it"), c.P.InstrPos(site), s.SeenBefore(site)[lRcpt], "a recipient is recorded before the backend was asked")
 		ok := false
 		if call, isCall := v.(*ssa.Call); isCall {
